@@ -66,7 +66,7 @@ func unitOfKind(r *RNG, h *hist, o histOpts, k int, fileNo *int, ts uint32) hUni
 		return hUnit{kind: "ue", typ: r.Pick(3, 14, 26, 28, 36, 37, 38, 160), body: r.Bytes(r.Intn(12))}
 	default:
 		st := genStmt(r, "begin", o, ts)
-		st.sql = r.Pickstr("SAVEPOINT a", "flush tables", "GRANT x", "analyze t", "xa start 'a'")
+		st.sql = r.Pickstr("SAVEPOINT a", "flush tables", "GRANT x", "analyze t", "xa start 'a'", "/* begin of nightly purge */ flush tables", "/* commit plan */ analyze t", "/* rollback plan: keep */ GRANT x", "/*!40000 ALTER TABLE t DISABLE KEYS */", "-- begin", "# commit", "(begin)", "beginx", "commits", "rollbacks now")
 		st.cat = 0
 		return hUnit{kind: "ust", stmt: st}
 	}
